@@ -2,7 +2,7 @@
 # usage: eval_mutants.sh Cxx  -> runs ./check Cxx against each /tmp/mut_Cxx_out/mN patch in the /tmp/mut_Cxx worktree
 P=$1
 cd /verif
-git -C /tmp/mut_$P checkout -q -- . 
+git -C /tmp/mut_$P checkout -q -- . ; git -C /tmp/mut_$P checkout -q --detach $(git -C /repo rev-parse HEAD)
 for m in m1 m2 m3; do
   echo "== $P $m"
   if git -C /tmp/mut_$P apply /tmp/mut_${P}_out/$m/patch.diff; then
